@@ -164,8 +164,8 @@ def correspondence_plans(ctx, P: C.Part, n_cfg: int) -> None:
         P.nontrivial.add((sched,) + cfg_key(cfg))
         P.sample({"op": "plan", "sched": sched, "cfg": cfg, "nf": rp["nf"], "L_first_last": [rp["L"][0], rp["L"][-1]]})
         # the GENERATED walk (translated from schedulers.py each run) must reproduce the same f, r, b, L, K
-        if sched in ("ltf", "new_ltf"):
-            gl = f"genwalk {'ltf' if sched == 'ltf' else 'new'} {cfg['N']} {C.f2h(cfg['fs'])} {C.f2h(cfg['olap'])} {C.f2h(cfg['bmin'])} {cfg['Lmin']} {cfg['Jdes']} {cfg['Kdes']}"
+        if sched in ("ltf", "new_ltf", "vectorized_ltf"):
+            gl = f"genwalk {dict(ltf='ltf', new_ltf='new', vectorized_ltf='vec')[sched]} {cfg['N']} {C.f2h(cfg['fs'])} {C.f2h(cfg['olap'])} {C.f2h(cfg['bmin'])} {cfg['Lmin']} {cfg['Jdes']} {cfg['Kdes']}"
             gr = ctx.driver.ask(gl)
             if gr.startswith("ERR"):
                 P.disagreements.append({"op": "genwalk", "sched": sched, "cfg": cfg, "driver": gr})
@@ -405,6 +405,22 @@ def pred_C04_count(cfg) -> List[C.Violation]:
         return [viol("C04", "vectorized_ltf", cfg, "count-vs-iterative", f"vectorised plan has {a} bins, iterative {b} (> 10 % apart)",
                      extra={"Jdes": cfg["Jdes"]})]
     return []
+
+
+def pred_C04_force_history(cfgs: List[Dict[str, Any]], sched: str) -> List[C.Violation]:
+    """forced target count over a HISTORY of plans in one process (consecutive configurations differ in one parameter):
+    each plan has exactly the target count or raises -- whatever was planned before"""
+    out: List[C.Violation] = []
+    for k, cfg in enumerate(cfgs):
+        vs = pred_C04_force(cfg, sched)
+        for v in vs:
+            v.what = f"after {k} earlier forced plans: " + v.what
+            v.signature["subclaim"] = "forced-count-history"
+            v.replay = {"scheduler": sched, "subclaim": "forced-count-history", "history": cfgs[:k + 1], "cfg": cfg}
+        out.extend(vs)
+        if vs:
+            break
+    return out
 
 
 def pred_C04_force(cfg, sched: str) -> List[C.Violation]:
